@@ -6,6 +6,7 @@ import (
 	"maps"
 	"net/http"
 	"os"
+	"path/filepath"
 	"strconv"
 	"strings"
 
@@ -560,20 +561,52 @@ func (r *Runner) Format(rslv resolver.Resolver) error {
 	}
 
 	formatted := formatter.New(r.config.Format).Format(vcl)
-	var w io.Writer
-	if r.config.Format.Overwrite {
-		writeln(cyan, "Formatted %s.", main.Name)
-		fp, err := os.OpenFile(main.Name, os.O_TRUNC|os.O_WRONLY, 0o644)
-		if err != nil {
+	if formatted == nil {
+		// e.g. statement-only snippet file
+		return errors.New("Failed to format: the file contains statements that the formatter does not support")
+	}
+	// Format whole result on memory first: the file must be left untouched if anything fails
+	buf, err := io.ReadAll(formatted)
+	if err != nil {
+		return errors.WithStack(err)
+	}
+
+	if !r.config.Format.Overwrite {
+		if _, err := os.Stdout.Write(buf); err != nil {
 			return errors.WithStack(err)
 		}
-		defer fp.Close()
-		w = fp
-	} else {
-		w = os.Stdout
+		return nil
 	}
-	if _, err := io.Copy(w, formatted); err != nil {
-		return err
+
+	// Write to a temporary file in the same directory and replace the target atomically,
+	// so that a write fault never leaves a truncated or partially written file
+	tmp, err := os.CreateTemp(filepath.Dir(main.Name), ".falco-fmt-*")
+	if err != nil {
+		return errors.WithStack(err)
 	}
+	cleanup := func(err error) error {
+		tmp.Close()           // nolint:errcheck
+		os.Remove(tmp.Name()) // nolint:errcheck
+		return errors.WithStack(err)
+	}
+	if info, err := os.Stat(main.Name); err != nil {
+		return cleanup(err)
+	} else if err := tmp.Chmod(info.Mode().Perm()); err != nil {
+		return cleanup(err)
+	}
+	if n, err := tmp.Write(buf); err != nil {
+		return cleanup(err)
+	} else if n != len(buf) {
+		return cleanup(io.ErrShortWrite)
+	}
+	if err := tmp.Close(); err != nil {
+		os.Remove(tmp.Name()) // nolint:errcheck
+		return errors.WithStack(err)
+	}
+	if err := os.Rename(tmp.Name(), main.Name); err != nil {
+		os.Remove(tmp.Name()) // nolint:errcheck
+		return errors.WithStack(err)
+	}
+	writeln(cyan, "Formatted %s.", main.Name)
 	return nil
 }
